@@ -44,6 +44,7 @@ def run(tier: str, seed: int) -> int:
     catname = dict(c04.CATS)
     recs, meta = [], []
     raised = 0
+    cleanup_dirs = []
     with dask.config.set(scheduler="synchronous"):
         nframes = 3 if quick else 30
         for kind in geom.KINDS:
@@ -63,7 +64,9 @@ def run(tier: str, seed: int) -> int:
                                       "shape": shape}).set_geometry("shape")
                 tb = df.geometry.array.total_bounds
                 for inparts in ([1, 3] if quick else [1, 2, 3]):
-                    mode = rng.choice(["plain", "filtered", "sorted", "touched-filtered", "repacked", "repacked-filtered", "indexed", "indexed"])
+                    mode = rng.choice(["plain", "filtered", "sorted", "touched-filtered", "repacked", "repacked-filtered", "indexed", "indexed", "dataset-bounded"])
+                    if mode == "dataset-bounded" and len(df) < 12:
+                        mode = "plain"
                     src = df
                     if mode == "sorted":
                         hd = df.geometry.hilbert_distance(total_bounds=tb, p=10)
@@ -74,6 +77,24 @@ def run(tier: str, seed: int) -> int:
                         # the parent's partition bounds / index are cached BEFORE rows are filtered away (incl. the extreme ones)
                         ddf.partition_sindex  # noqa: B018
                         _ = ddf.cx[0:1, 0:1]
+                    if mode == "dataset-bounded":
+                        # history: the frame is a 12-partition parquet dataset re-read with bounds= (some partitions pruned, the stored per-partition
+                        # bounds attached to the rest); packing uses the extent of the rows that are there
+                        import shutil
+                        import tempfile
+                        from spatialpandas.io import read_parquet_dask
+                        td = tempfile.mkdtemp(prefix="c09-", dir=__import__("os").environ.get("TMPDIR") or "/var/tmp")
+                        try:
+                            dd.from_pandas(src, npartitions=12).to_parquet(td + "/d.parq")
+                            bb = df.geometry.array.bounds[len(df) // 2]
+                            box = (float(tb[0]), float(tb[1]), float(tb[0] + (tb[2] - tb[0]) / 2), float(tb[3])) if not np.isnan(tb).any() else (0.0, 0.0, 4.0, 8.0)
+                            rd = read_parquet_dask(td + "/d.parq", geometry="shape", bounds=box)
+                            loaded = rd.compute()
+                            ddf = dd.from_pandas(loaded.iloc[:0], npartitions=1) if False else rd.persist()
+                            kept = [int(i) for i in loaded["id"]]
+                        finally:
+                            pass
+                        cleanup_dirs.append(td)
                     if mode == "indexed":
                         # history: every partition carries a built spatial index (build_sindex, persisted) before the frame is packed
                         ddf = ddf.build_sindex(page_size=2).persist()
@@ -132,6 +153,8 @@ def run(tier: str, seed: int) -> int:
                                              parts=[[[pos[int(i)], digits(int(k), p, 2)] for k, i in zip(part.index, part["id"])] for part in parts]))
                             meta.append(info)
     chk.notes["calls_that_raised"] = raised
+    for td_ in cleanup_dirs:
+        __import__("shutil").rmtree(td_, ignore_errors=True)
     verdicts, tres = validate_trace("Trace_Pack", recs, cfg=dict(invariants=["RecordOK"]), timeout=3000)
     chk.add_tlc(tres)
     chk.traces += len(recs)
